@@ -640,7 +640,7 @@ def run(ctx):
                 'non-empty browsers; distinct by case content')
     rng = ctx.rng
     cases = [json.loads(json.dumps(c)) for c in CORPUS]
-    nrand = 1500 if ctx.tier == 'quick' else 20000
+    nrand = 1200 if ctx.tier == "quick" else 20000
     cases += [gen_case(rng) for _ in range(nrand)]
     steps = []
     for case in cases:
@@ -655,13 +655,13 @@ def run(ctx):
                        + clist([coq_case(s) for s in chunk]).replace('; (', ';\n (')
                        + '.\nEval vm_compute in bad_indices (map check_case cases).'))
     # exhaustive small scope: quick = every list of length <= 3, thorough = length <= 4
-    # (quick: complete to length 2 plus every 4th list of length 3, rotating with the seed)
+    # (quick: complete to length 2 plus every 8th list of length 3, rotating with the seed)
     quick = ctx.tier == 'quick'
     maxlen = 3 if quick else 4
-    ncalls, nlists = run_exhaustive(ctx, maxlen, 4 if quick else 1, shards)
+    ncalls, nlists = run_exhaustive(ctx, maxlen, 8 if quick else 1, shards)
     ctx.extra['exhaustive'] = True
     ctx.extra['exhaustive_bound'] = (
-        ('complete for length <= 2, plus a 1/4 slice (by seed) of length 3: ' if quick else '')
+        ('complete for length <= 2, plus a 1/8 slice (by seed) of length 3: ' if quick else '')
         + f'all item lists of length <= {2 if quick else maxlen} over keys a, b with values absent / 1 (as 1, 1.0, True by '
         f'position) / "x" ({nlists} lists) x data key in (results, data) x all 256 queries (per key: absent / '
         f'True / "x" / a value no item has; include and exclude any subset of the keys): {ncalls} filter_by '
